@@ -120,6 +120,21 @@ impl Unparser<'_> {
         })
     }
 
+    /// Converts the operand of an `IS [NOT] NULL / TRUE / FALSE / UNKNOWN` test.
+    ///
+    /// `NOT` binds looser than `IS`: `NOT x IS TRUE` means `NOT (x IS TRUE)`, so a
+    /// `NOT` operand is wrapped in parentheses to keep `(NOT x) IS TRUE`.
+    fn is_operand_to_sql(&self, expr: &Expr) -> Result<ast::Expr> {
+        let sql_parser_expr = self.expr_to_sql_inner(expr)?;
+        Ok(match sql_parser_expr {
+            AstExpr::UnaryOp {
+                op: UnaryOperator::Not,
+                ..
+            } => AstExpr::Nested(Box::new(sql_parser_expr)),
+            other => other,
+        })
+    }
+
     fn distinct_from_to_sql(
         &self,
         left: ast::Expr,
@@ -502,28 +517,28 @@ impl Unparser<'_> {
                 })
             }
             Expr::IsNull(expr) => {
-                Ok(ast::Expr::IsNull(Box::new(self.expr_to_sql_inner(expr)?)))
+                Ok(ast::Expr::IsNull(Box::new(self.is_operand_to_sql(expr)?)))
             }
             Expr::IsNotNull(expr) => Ok(ast::Expr::IsNotNull(Box::new(
-                self.expr_to_sql_inner(expr)?,
+                self.is_operand_to_sql(expr)?,
             ))),
             Expr::IsTrue(expr) => {
-                Ok(ast::Expr::IsTrue(Box::new(self.expr_to_sql_inner(expr)?)))
+                Ok(ast::Expr::IsTrue(Box::new(self.is_operand_to_sql(expr)?)))
             }
             Expr::IsNotTrue(expr) => Ok(ast::Expr::IsNotTrue(Box::new(
-                self.expr_to_sql_inner(expr)?,
+                self.is_operand_to_sql(expr)?,
             ))),
             Expr::IsFalse(expr) => {
-                Ok(ast::Expr::IsFalse(Box::new(self.expr_to_sql_inner(expr)?)))
+                Ok(ast::Expr::IsFalse(Box::new(self.is_operand_to_sql(expr)?)))
             }
             Expr::IsNotFalse(expr) => Ok(ast::Expr::IsNotFalse(Box::new(
-                self.expr_to_sql_inner(expr)?,
+                self.is_operand_to_sql(expr)?,
             ))),
             Expr::IsUnknown(expr) => Ok(ast::Expr::IsUnknown(Box::new(
-                self.expr_to_sql_inner(expr)?,
+                self.is_operand_to_sql(expr)?,
             ))),
             Expr::IsNotUnknown(expr) => Ok(ast::Expr::IsNotUnknown(Box::new(
-                self.expr_to_sql_inner(expr)?,
+                self.is_operand_to_sql(expr)?,
             ))),
             Expr::Not(expr) => {
                 let sql_parser_expr = self.expr_to_sql_inner(expr)?;
